@@ -233,6 +233,50 @@ def bound_by(fi, name, at_node, def_stmt):
     return bool(defs) and all(d[0] == target.id for d in defs)
 
 
+def _first_evaluated(n):
+    """the expression an If / While statement evaluates first (the left-most leaf of its test)"""
+    if isinstance(n, (ast.If, ast.While)):
+        n = n.test
+        while True:
+            if isinstance(n, ast.BoolOp):
+                n = n.values[0]
+            elif isinstance(n, ast.UnaryOp) and isinstance(n.op, ast.Not):
+                n = n.operand
+            else:
+                return n
+    if isinstance(n, ast.For):
+        return n.iter
+    return n
+
+
+def before(fi, a, b):
+    """`a` is evaluated before `b` on every path that reaches `b`: the cfg node of `a` dominates that of `b`
+    (document order inside one cfg node).  Replaces comparisons of line numbers, which say nothing about paths and are
+    shared by statements that the translation inlined from one helper."""
+    cfg = cfg_of(fi)
+    a, b = _first_evaluated(a), _first_evaluated(b)
+    na, nb = cfg.node_of(a), cfg.node_of(b)
+    if na is None or nb is None:
+        return False
+    if na.id != nb.id:
+        return cfg.dominates(na.id, nb.id)
+    order = getattr(fi, "_doc_order", None)
+    if order is None or order[0] is not fi.node:
+        seq = {}
+
+        def rec(n):
+            seq[id(n)] = len(seq)
+            for c in ast.iter_child_nodes(n):
+                rec(c)
+        rec(fi.node)
+        order = (fi.node, seq)
+        try:
+            fi._doc_order = order
+        except AttributeError:
+            pass
+    return order[1].get(id(a), -1) < order[1].get(id(b), -1)
+
+
 def loop_shadowing(ctx, rule, modules):
     """A name that is used after a `for` loop and whose reaching definitions there include both the loop's own target and
     another binding (an earlier assignment or a parameter) has been shadowed by accident: after at least one iteration it holds
